@@ -1406,11 +1406,21 @@ def str_char_indices(I, a, n):
 @model(r"^core::str::bytes$")
 def str_bytes(I, a, n):
     from .models_iter import ListIt
-    cs = chars_of(a[0])
-    for c in cs:
-        if I.char_width(c) != 1:
-            raise Unsupported("bytes() on non-ASCII text")
-    return ListIt(list(cs), False)
+    out = []
+    for c in chars_of(a[0]):
+        if I.char_width(c) == 1:
+            out.append(c)
+            continue
+        if is_sym(c):
+            # a symbolic non-ASCII char ranges over the representatives of char_domain: fix which one it is on this path
+            for v in NONASCII:
+                if I.branch_bool(c == v):
+                    c = v
+                    break
+            else:
+                raise Unsupported("bytes() of a symbolic non-ASCII char outside the representative set")
+        out.extend(chr(c).encode("utf8"))
+    return ListIt(out, False)
 
 
 @model(r"^std::str::to_ascii_uppercase$|^core::str::to_ascii_uppercase$|^std::string::String::to_ascii_uppercase$")
@@ -1827,34 +1837,34 @@ def any_of(*cs):
     return z3.Or(sym) if len(sym) > 1 else sym[0]
 
 
-@model(r"^std::char::methods::is_ascii_uppercase$")
+@model(r"^std::char::methods::is_ascii_uppercase$|^core::num::is_ascii_uppercase$")
 def char_is_ascii_upper(I, a, n):
     return rng(deref(a[0]), 65, 90)
 
 
-@model(r"^std::char::methods::is_ascii_lowercase$")
+@model(r"^std::char::methods::is_ascii_lowercase$|^core::num::is_ascii_lowercase$")
 def char_is_ascii_lower(I, a, n):
     return rng(deref(a[0]), 97, 122)
 
 
-@model(r"^std::char::methods::is_ascii_digit$")
+@model(r"^std::char::methods::is_ascii_digit$|^core::num::is_ascii_digit$")
 def char_is_ascii_digit(I, a, n):
     return rng(deref(a[0]), 48, 57)
 
 
-@model(r"^std::char::methods::is_ascii_alphabetic$")
+@model(r"^std::char::methods::is_ascii_alphabetic$|^core::num::is_ascii_alphabetic$")
 def char_is_ascii_alpha(I, a, n):
     c = deref(a[0])
     return any_of(rng(c, 65, 90), rng(c, 97, 122))
 
 
-@model(r"^std::char::methods::is_ascii_alphanumeric$")
+@model(r"^std::char::methods::is_ascii_alphanumeric$|^core::num::is_ascii_alphanumeric$")
 def char_is_ascii_alnum(I, a, n):
     c = deref(a[0])
     return any_of(rng(c, 65, 90), rng(c, 97, 122), rng(c, 48, 57))
 
 
-@model(r"^std::char::methods::is_ascii$")
+@model(r"^std::char::methods::is_ascii$|^core::num::is_ascii$")
 def char_is_ascii(I, a, n):
     return rng(deref(a[0]), 0, 127)
 
